@@ -278,3 +278,29 @@ PROPS["C11"] = {
         "thorough": {"accepted_by_permissive_open": 3000000},
     },
 }
+
+PROPS["C16"] = {
+    "level": "exploration",
+    "rule": "part A (every 3rd case): an input from C05's generator (valid bases, benign and hostile corruptions); whenever strict open "
+            "accepts it, permissive must accept it and both dumps (tree, metadata, bytes) must be identical. part B: a valid base "
+            "(library-written, synthesised foreign layout, synthesised with 1-2 DIFAT sectors, library-written with a DIFAT sector) with "
+            "1-4 of the 18 documented deviations injected at a random applicable place (DIFAT-related ones steered into pairs): "
+            "permissive open must give exactly the undamaged file's dump and strict open must reject. non-trivial = part A input accepted "
+            "by strict, or part B input judged; distinct = FNV-64 of the input bytes",
+    "assumptions": COMMON_ASSUMPTIONS + [
+        "header first_difat_sector = FREESECT is accepted by BOTH modes (header.rs documents it without tying it to validation), so it is not in the must-reject list",
+        "the physical 'length' reported for storages/root is not compared between modes",
+    ],
+    "checked_share": 0.5,
+    "quick": {"budget_s": 22},
+    "thorough": {"budget_s": 300},
+    "floors": {
+        "quick": {"partA.strict_accepted_and_compared": 800, "partA.strict_accepted_corrupted_input": 300, "partB.singles_checked": 3000, "partB.combinations_checked": 2500,
+                  "partB.zero_padded_fat.single": 150, "partB.zero_padded_difat.single": 60, "partB.fat_sector_unmarked.single": 150, "partB.difat_sector_unmarked.single": 60,
+                  "partB.difat_chain_ends_free.single": 60, "partB.adjacent_red_nodes.single": 100, "partB.name_not_terminated.single": 100, "partB.wrong_root_name.single": 100,
+                  "partB.stream_clsid.single": 100, "partB.stream_ctime.single": 100, "partB.stream_mtime.single": 100, "partB.storage_start.single": 80, "partB.storage_size.single": 80,
+                  "partB.num_fat_wrong.single": 150, "partB.num_difat_wrong.single": 150, "partB.num_minifat_wrong.single": 100, "partB.v3_num_dir_nonzero.single": 60,
+                  "partB.minifat_overlong.single": 80, "partB.zero_padded_difat.combined": 250, "partB.base.library-written with a DIFAT sector": 400},
+        "thorough": {"partB.singles_checked": 100000, "partB.combinations_checked": 100000},
+    },
+}
